@@ -6,7 +6,8 @@ import struct
 from harness import core, fmt_vhdx
 from harness.core import Z
 from harness.main import Finding
-from harness.props import c03, c04, c05, c06
+from harness.props import c01, c02, c03, c04, c05, c06
+from harness.main import Suite
 from harness.readers import ReaderSuite, call
 
 PROPERTY = "C13"
@@ -412,4 +413,153 @@ class _Len(list):
         return self._n
 
 
-SUITES = {"vhd_huge": VhdHuge(), "vdi_huge": VdiHuge(), "vhdx_huge": VhdxHuge(), "hds_huge": HdsHuge()}
+# ----------------------------------------------------------------------------- VMDK / QCOW2: measured I/O bound
+class IoBound(Suite):
+    """Model-free I/O accounting for the readers whose plan-level theorems live in C01/C02: every request must cost
+    file I/O bounded by the request plus a few allocation units and mapping tables, even when the backing file carries
+    tens of MiB of unrelated allocated data behind the touched region (a read that runs to EOF is then obvious)."""
+    TAIL = 96 * MB
+    shard = 50
+
+    def judge(self, case, impl_res, coq_val):
+        fmt = self.fmt
+        if impl_res.get("outcome"):
+            return [Finding("impl_fault", f"{fmt}: implementation {impl_res['outcome']} {impl_res.get('detail', '')}",
+                            f"{fmt}:io:{impl_res['outcome']}")]
+        if impl_res.get("open") is not None:
+            return []          # opening problems are C01/C02's business
+        fs = []
+        unit, table = impl_res["unit"], impl_res["table"]
+        if impl_res["open_bytes"] > impl_res["open_bound"]:
+            fs.append(Finding("impl_vs_spec", f"{fmt}: open read {impl_res['open_bytes']} bytes, mapping metadata bound "
+                              f"{impl_res['open_bound']}", f"{fmt}:io:open"))
+        for (kind, a, b), io in zip(impl_res["reqs"], impl_res["io"]):
+            if io is None:
+                continue
+            n = io["returned"]
+            units = n // unit + 3
+            bound = n + units * 3 * unit + (n // max(1, impl_res["coverage"]) + 2) * table + 65536
+            if io["bytes"] > bound or io["max_read"] > max(4 * unit, n + 2 * unit, table) + 65536:
+                fs.append(Finding("impl_vs_spec", f"{fmt}: {kind}({a},{b}) returned {n} bytes but read {io['bytes']} bytes "
+                                  f"from the backing files (largest single read {io['max_read']}); bound {bound}",
+                                  f"{fmt}:io:bytes"))
+        return fs
+
+    def nontrivial(self, case, impl_res, coq_val):
+        if impl_res.get("io") and any(i and i["bytes"] > 0 for i in impl_res["io"]):
+            return core.sha(core.jdump(case).encode())
+        return None
+
+
+class VmdkIo(IoBound):
+    name = "vmdk_io"
+    fmt = "vmdk"
+
+    def generate(self, rng, tier):
+        out = []
+        n = 400 if tier == "thorough" else 40
+        while len(out) < n:
+            c = c02.gen_case(rng, "quick")
+            c["fsize"] = c["fsize"] + self.TAIL
+            out.append(c)
+        return out
+
+    def impl(self, case):
+        from dissect.hypervisor.disk.vmdk import VMDK
+        fh, _ = c02.build_image(case)
+        out = {"open": None, "reqs": [], "io": []}
+        try:
+            v = VMDK(fh)
+        except Exception as e:  # noqa: BLE001
+            out["open"] = {"exc": type(e).__name__}
+            return out
+        d = v.disks[0]
+        gs = int(d.header.grain_size) * 512 if case["kind"] != "flat" else 65536
+        gt = (int(d._grain_table_size) * (8 if getattr(d, "is_sesparse", False) else 4)) if case["kind"] != "flat" else 0
+        gd = (int(d._grain_directory_size) * (8 if getattr(d, "is_sesparse", False) else 4)) if case["kind"] != "flat" else 0
+        out.update(unit=max(512, gs), table=max(512, gt), coverage=max(1, gs * max(1, gt // 4)),
+                   open_bytes=fh.bytes_read, open_bound=2 * gd + 8 * 65536 + 2 * gt)
+        for kind, a, b in [r[:3] for r in case["reqs"]]:
+            if kind not in ("raw", "bytes", "sectors"):
+                continue
+            fh.reset_counters()
+            try:
+                if kind == "raw":
+                    r = v._read(a, b)
+                elif kind == "sectors":
+                    r = v.read_sectors(a, b)
+                else:
+                    v.seek(a)
+                    r = v.read(b)
+            except Exception:  # noqa: BLE001
+                out["reqs"].append([kind, a, b])
+                out["io"].append(None)
+                continue
+            out["reqs"].append([kind, a, b])
+            out["io"].append({"returned": len(r), "bytes": fh.bytes_read,
+                              "max_read": max([x[3] for x in fh.log if x[0] == "read"] or [0])})
+        return out
+
+    def dist(self, case):
+        return {"kind": case["kind"], "compressed": bool(case.get("cgrains"))}
+
+
+class Qcow2Io(IoBound):
+    name = "qcow2_io"
+    fmt = "qcow2"
+
+    def generate(self, rng, tier):
+        out = []
+        n = 400 if tier == "thorough" else 40
+        while len(out) < n:
+            c = c01.gen_case(rng, "quick")
+            c["file_size"] = c["file_size"] + self.TAIL
+            if c.get("datafile"):
+                c["data_size"] = c["data_size"] + self.TAIL
+            out.append(c)
+        return out
+
+    def impl(self, case):
+        from dissect.hypervisor.disk import qcow2 as Q
+        fh, data, backing = c01.build_files(case)
+        out = {"open": None, "reqs": [], "io": []}
+        bk = case["backing"]
+        barg = None
+        if bk is not None:
+            barg = backing if bk.get("size") is not None else Q.ALLOW_NO_BACKING_FILE
+        try:
+            q = Q.QCow2(fh, data_file=data, backing_file=barg)
+        except Exception as e:  # noqa: BLE001
+            out["open"] = {"exc": type(e).__name__}
+            return out
+        cs = int(q.cluster_size)
+        files = [f for f in (fh, data, backing) if f is not None]
+        out.update(unit=cs, table=cs, coverage=cs * int(q.l2_size), open_bytes=fh.bytes_read,
+                   open_bound=8 * int(q.header.l1_size) + 4 * cs + 65536)
+        for kind, a, b in [r[:3] for r in case["reqs"]]:
+            if kind not in ("raw", "bytes"):
+                continue
+            if b < 0 or b > 8 * MB:
+                b = min(8 * MB, max(0, int(q.size) - a))
+            for f in files:
+                f.reset_counters()
+            try:
+                if kind == "raw":
+                    r = q._read(a, b)
+                else:
+                    q.seek(a)
+                    r = q.read(b)
+            except Exception:  # noqa: BLE001
+                out["reqs"].append([kind, a, b])
+                out["io"].append(None)
+                continue
+            out["reqs"].append([kind, a, b])
+            out["io"].append({"returned": len(r), "bytes": sum(f.bytes_read for f in files),
+                              "max_read": max([x[3] for f in files for x in f.log if x[0] == "read"] or [0])})
+        return out
+
+    def dist(self, case):
+        return {"cluster_bits": case["cluster_bits"], "ext": case["ext"], "datafile": case["datafile"]}
+
+
+SUITES = {"vmdk_io": VmdkIo(), "qcow2_io": Qcow2Io(), "vhd_huge": VhdHuge(), "vdi_huge": VdiHuge(), "vhdx_huge": VhdxHuge(), "hds_huge": HdsHuge()}
